@@ -113,8 +113,8 @@ def check(ctx):
             info = {'catalog': repr(meta['cat'])[:600], 'charset': meta['cs'], 'layout': L.describe(), 'file': list(data)[:800],
                     'origin': meta['origin'], 'got': r[:600]}
             if got[0] == 'ok' and got[:3] == want[:3] and ML.swap_ctxt(got[3]) == want[3]:
-                ctx.count('finding:D15')
-                ctx.fail('ctxt-swapped', info, 'msgctxt and msgid come back exchanged for every entry that has a context', finding='D15')
+                ctx.count('finding:D18')
+                ctx.fail('ctxt-swapped', info, 'msgctxt and msgid come back exchanged for every entry that has a context', finding='D18')
             elif got[0] == 'ok' and got[1] != want[1]:
                 ctx.fail('hidden-flag', info, 'possible_hidden_strings = %r, the revision/sysdep count say %r' % (got[1], want[1]))
             else:
